@@ -115,8 +115,9 @@ HandleOf(x, f) ==
   ELSE IF x.sources[f] = NoText THEN [d |-> x, found |-> FALSE]
   ELSE LET inp == [x.inputs EXCEPT ![f] = x.sources[f]]
        IN [d |-> [x EXCEPT !.inputs = inp, !.project = SyncProject(inp)], found |-> TRUE]
-Result(x, a, p) == [d |-> x, ans |-> a, panic |-> p,
-                    insync |-> x.inputs = x.sources /\ x.project.some /\ x.project.files = Dom(x.sources)]
+\* the three views agree (the project list exists from the first sync on)
+InSync(x) == x.inputs = x.sources /\ (x.project.some => x.project.files = Dom(x.sources))
+Result(x, a, p) == [d |-> x, ans |-> a, panic |-> p, insync |-> InSync(x)]
 LocalQueryOf(x0, kind, f) ==
   LET h == HandleOf(x0, f)
       x == h.d
@@ -126,12 +127,12 @@ LocalQueryOf(x0, kind, f) ==
           IN Result(Store(x, <<kind, f>>, deps, a), a, FALSE)
 ProjectQueryOf(x0, kind, f) ==
   LET x == Prepared(x0) IN
-  IF x.inputs[f] = NoText THEN Result(x, Empty, FALSE)
+  IF x.inputs[f] = NoText THEN [Result(x, Empty, FALSE) EXCEPT !.insync = @ /\ x.project.some]
   ELSE IF ~x.project.some THEN Result(x, Empty, TRUE)      \* project_inputs(..).expect(..)
   ELSE LET fs == x.project.files
            deps == [files |-> fs, texts |-> [g \in fs |-> x.inputs[g]]]
            a == Lookup(x, <<kind, f>>, deps, ProjectAnswer(fs, x.inputs, kind, f))
-       IN Result(Store(x, <<kind, f>>, deps, a), a, FALSE)
+       IN [Result(Store(x, <<kind, f>>, deps, a), a, FALSE) EXCEPT !.insync = @ /\ x.project.some]
 \* "types" = expr_id_at_offset (file level) followed by type_of (project level)
 QueryOf(x, kind, f) ==
   IF kind \in LocalKinds THEN LocalQueryOf(x, kind, f)
@@ -165,8 +166,7 @@ Query(kind, f) ==
 \* the three views of the file set agree whenever a query is answered ...
 InputsInSyncAtQuery == obs.op = "Query" => obs.insync
 \* ... and, the code syncing eagerly, in every reachable state
-InputsInSync == /\ d.inputs = d.sources
-                /\ d.project.some => d.project.files = Dom(d.sources)
+InputsInSync == /\ InSync(d)
                 /\ d.synced = d.revision \/ (d.revision = 1 /\ d.synced = 0)
 \* the answer of the long-lived database is the answer of a brand-new one
 AnswerEqualsFresh == obs.op = "Query" => obs.ans = obs.fresh
